@@ -19,8 +19,8 @@ ASSUMPTIONS = [
     'awaitable completions and resume calls are delivered between two event-loop callbacks',
 ]
 BUDGET = {
-    'quick': {'enum': ['p3', 'w2'], 'hyp': 2000, 'shards': 8},
-    'thorough': {'enum': ['p3', 'p4', 'w2', 'w3'], 'hyp': 100000, 'shards': 16},
+    'quick': {'enum': ['p3', 'w2', 'wfail'], 'hyp': 2000, 'shards': 8},
+    'thorough': {'enum': ['p3', 'p4', 'w2', 'w3', 'wfail'], 'hyp': 100000, 'shards': 16},
 }
 ALPHABET = [['resume', 'v1'], ['resume', 'v2'], ['pause', 'pm'], ['play']]
 
@@ -38,6 +38,10 @@ def enumerate_cases(tier, scope):
         from . import wc_await
 
         yield from wc_await.enumerate_cases(int(scope[1]))
+    elif scope == 'wfail':
+        from . import wc_await
+
+        yield from wc_await.enumerate_failing()
     else:
         raise ValueError(scope)
 
